@@ -48,11 +48,14 @@ class CleanBase(Prop):
         """Returns (setup ops, run ops, info). Layout: def/ holds the default multi-entry file (+ stale entries),
         stale standalone and unrelated files; d2/ is never addressed."""
         tests = r.shuffle([b"TestA", b"TestB", b"TestB/sub", b"TestC10", b"TestC9", b"TestAlpha", b"TestZeta/x#01"])[: r.range(1, 4)]
-        stale_tests = r.shuffle([b"TestOld", b"TestGone/sub", b"TestA/removed", b"TestC2"])[: r.range(0, 3)]
+        # tidy_main: the default file needs neither pruning nor sorting (Clean must leave it alone and must not carry
+        # anything over from it to the files it examines next)
+        tidy_main = r.chance(1, 4)
+        stale_tests = [] if tidy_main else r.shuffle([b"TestOld", b"TestGone/sub", b"TestA/removed", b"TestC2"])[: r.range(0, 3)]
         ncalls = {t: r.range(1, 3) for t in tests}
         entries = []
         for t in tests:
-            for k in range(1, ncalls[t] + 1 + (r.range(0, 2) if r.chance(1, 3) else 0)):   # ordinals beyond the call count are stale
+            for k in range(1, ncalls[t] + 1 + (r.range(0, 2) if (r.chance(1, 3) and not tidy_main) else 0)):   # ordinals beyond the call count are stale
                 entries.append((b"%s - %d" % (t, k), G.gen_text(r, maxlines=3).replace(b"\r", b"")))
         for t in stale_tests:
             entries.append((b"%s - %d" % (t, r.range(1, 2)), G.gen_text(r, maxlines=3).replace(b"\r", b"")))
@@ -64,6 +67,9 @@ class CleanBase(Prop):
         entries = r.shuffle(entries)
         if sort_names and r.chance(1, 2):
             entries.sort(key=lambda e: e[0])
+        if tidy_main:
+            byid = dict(entries)
+            entries = [(i_, byid[i_]) for i_ in G.nat_sorted([i_ for i_, _ in entries])]
         content = b"".join(frame(i, b) for i, b in entries)
         setup = [G.op_putfile(b"def/zz_verif_trace_test.snap", content)]
         extra_files = {}
@@ -97,7 +103,7 @@ class CleanBase(Prop):
                     calls.append(G.op_match_doc("stand", 0, t, b"sv"))
                 seqs.append(calls + [G.op_end(t)])
             run += G.interleave(r, seqs)
-        if r.chance(1, 3):
+        if r.chance(1, 3) or tidy_main:
             # a second addressed multi-entry file (Config with Filename) whose stale entry has the id of a live
             # entry of the first file (a test that moved between files)
             t0 = tests[0]
